@@ -75,6 +75,26 @@ def f6():
     return False, "step() on the freshly loaded program works"
 
 
+def f7():
+    try:
+        RiscvSimulation().load_program("nop\n\u017fub x1, x2, x3")
+    except ParserException as e:
+        return False, repr(e)
+    except KeyError as e:
+        return True, repr(e)
+    return False, "accepted"
+
+
+def k3():
+    try:
+        RiscvSimulation().load_program("addi x1, x0, " + "1" * 5000)
+    except ParserException as e:
+        return False, repr(e)
+    except ValueError as e:
+        return True, repr(e)[:120]
+    return False, "accepted"
+
+
 def k1():
     m = WriteBackMemorySystem(Memory(AddressingType.BYTE, 32, True, range(2**14, 2**32)), 0, 13, 1, RiscvPerformanceMetrics(), 0, "lru")
     try:
@@ -84,7 +104,7 @@ def k1():
     return False, None
 
 
-ALL = {"F1": f1, "F2": f2, "F3": f3, "F4": f4, "F5": f5, "F6": f6, "K1": k1}
+ALL = {"F1": f1, "F2": f2, "F3": f3, "F4": f4, "F5": f5, "F6": f6, "F7": f7, "K1": k1, "K3": k3}
 
 if __name__ == "__main__":
     import sys
